@@ -323,4 +323,144 @@ theorem consumeAll_spec (l : Dims) (ds : List Dims) (r : Raw) (hr : r.length = r
       rw [h3 k hk', acceptedSum_cons]
       simp
 
+/-- exact sum of component `k` over a list of unit vectors -/
+def sumDims (ds : List Dims) (k : Nat) : Nat := (ds.map fun d => dget d k).sum
+
+theorem sumDims_cons (d : Dims) (ds : List Dims) (k : Nat) :
+    sumDims (d :: ds) k = dget d k + sumDims ds k := by simp [sumDims]
+
+/-- a block that the processor's metering loop accepts -/
+theorem processTxs_ok (l : Dims) (us : List (Except UnitsErr Dims)) (r r' : Raw)
+    (hr : r.length = rawWords) (h : processTxs l r us = .ok r') :
+    ∃ ds, us = ds.map Except.ok ∧ r'.length = rawWords ∧
+      (∀ k, k < feeDimensions → lastConsumed r' k = lastConsumed r k + sumDims ds k) ∧
+      ((∀ k, k < feeDimensions → lastConsumed r k ≤ dget l k) →
+        ∀ k, k < feeDimensions → lastConsumed r' k ≤ dget l k) ∧
+      (∀ j, (∀ k, k < feeDimensions → j ≠ consumedIdx k) → getWord r' j = getWord r j) := by
+  induction us generalizing r with
+  | nil =>
+    simp only [processTxs] at h
+    injection h with h; subst h
+    exact ⟨[], rfl, hr, by simp [sumDims], fun h0 => h0, fun _ _ => rfl⟩
+  | cons u rest ih =>
+    cases u with
+    | error e => simp [processTxs] at h
+    | ok d =>
+      unfold processTxs at h
+      rcases consume_spec r d l hr with ⟨hfit, r1, hc, hlen, hk, hw⟩ | ⟨i, _, _, _, hc⟩
+      · rw [hc] at h
+        simp only at h
+        obtain ⟨ds, hds, hl', hs, hle, hoth⟩ := ih r1 hlen h
+        refine ⟨d :: ds, by simp [hds], hl', ?_, ?_, ?_⟩
+        · intro k hk'
+          rw [hs k hk', hk k hk', sumDims_cons]; omega
+        · intro _ k hk'
+          apply hle _ k hk'
+          intro k hk''
+          rw [hk k hk'']
+          exact (hfit k hk'').2
+        · intro j hj
+          rw [hoth j hj, hw j hj]
+      · rw [hc] at h
+        simp at h
+
+/-- the processor accepts a block of metered transactions exactly when, in every dimension,
+consumption at the start plus the exact sum of all its transactions' units is within the
+maximum; otherwise it is rejected with `ErrInvalidUnitsConsumed` for some dimension -/
+theorem processTxs_accepts_iff (l : Dims) (ds : List Dims) (r : Raw) (hr : r.length = rawWords)
+    (hl : ∀ k, k < feeDimensions → dget l k < two64)
+    (h0 : ∀ k, k < feeDimensions → lastConsumed r k ≤ dget l k) :
+    ((∃ r', processTxs l r (ds.map Except.ok) = .ok r') ↔
+      ∀ k, k < feeDimensions → lastConsumed r k + sumDims ds k ≤ dget l k) ∧
+    (∀ e, processTxs l r (ds.map Except.ok) = .error e → ∃ i, i < feeDimensions ∧ e = .tooLarge i) := by
+  induction ds generalizing r with
+  | nil =>
+    refine ⟨?_, ?_⟩
+    · simp only [List.map_nil, processTxs, sumDims, List.sum_nil, Nat.add_zero]
+      exact ⟨fun _ => h0, fun _ => ⟨r, rfl⟩⟩
+    · intro e he; simp [processTxs] at he
+  | cons d ds ih =>
+    simp only [List.map_cons]
+    unfold processTxs
+    rcases consume_spec r d l hr with ⟨hfit, r1, hc, hlen, hk, _⟩ | ⟨i, hi, hnf, _, hc⟩
+    · rw [hc]
+      simp only
+      have h1 : ∀ k, k < feeDimensions → lastConsumed r1 k ≤ dget l k := by
+        intro k hk'; rw [hk k hk']; exact (hfit k hk').2
+      obtain ⟨ih1, ih2⟩ := ih r1 hlen h1
+      refine ⟨?_, ih2⟩
+      rw [ih1]
+      constructor
+      · intro h k hk'
+        have := h k hk'
+        rw [hk k hk'] at this
+        rw [sumDims_cons]; omega
+      · intro h k hk'
+        have := h k hk'
+        rw [sumDims_cons] at this
+        rw [hk k hk']; omega
+    · rw [hc]
+      simp only
+      refine ⟨?_, ?_⟩
+      · constructor
+        · rintro ⟨r', h⟩; cases h
+        · intro h
+          exfalso
+          apply hnf
+          have := h i hi
+          rw [sumDims_cons] at this
+          have hli := hl i hi
+          exact ⟨by omega, by omega⟩
+      · intro e he
+        injection he with he
+        exact ⟨i, hi, he.symm⟩
+
+theorem acceptedSum_all_false (ds : List Dims) (k : Nat) :
+    acceptedSum ds (ds.map fun _ => false) k = 0 := by
+  induction ds with
+  | nil => simp [acceptedSum]
+  | cons d ds ih => rw [List.map_cons, acceptedSum_cons]; simp [ih]
+
+/-- the builder's metering loop -/
+theorem buildAll_spec (l target : Dims) (ds : List Dims) (r : Raw) (hr : r.length = rawWords) :
+    (buildAll l target r ds).1.length = rawWords ∧ (buildAll l target r ds).2.length = ds.length ∧
+    (∀ k, k < feeDimensions →
+      lastConsumed (buildAll l target r ds).1 k
+        = lastConsumed r k + acceptedSum ds (buildAll l target r ds).2 k) ∧
+    ((∀ k, k < feeDimensions → lastConsumed r k ≤ dget l k) →
+      ∀ k, k < feeDimensions → lastConsumed (buildAll l target r ds).1 k ≤ dget l k) ∧
+    (∀ j, (∀ k, k < feeDimensions → j ≠ consumedIdx k) →
+      getWord (buildAll l target r ds).1 j = getWord r j) := by
+  induction ds generalizing r with
+  | nil => simp [buildAll, hr, acceptedSum]
+  | cons d ds ih =>
+    unfold buildAll
+    rcases consume_spec r d l hr with ⟨hfit, r1, hc, hlen, hk, hw⟩ | ⟨i, _, _, _, hc⟩
+    · rw [hc]
+      simp only
+      obtain ⟨h1, h2, h3, h4, h5⟩ := ih r1 hlen
+      refine ⟨h1, by simp [h2], ?_, ?_, ?_⟩
+      · intro k hk'
+        rw [h3 k hk', acceptedSum_cons, hk k hk']
+        simp only [if_true]; omega
+      · intro _ k hk'
+        apply h4 _ k hk'
+        intro k hk''
+        rw [hk k hk'']
+        exact (hfit k hk'').2
+      · intro j hj
+        rw [h5 j hj, hw j hj]
+    · rw [hc]
+      simp only
+      split
+      · refine ⟨hr, by simp, ?_, fun h0 => h0, fun _ _ => rfl⟩
+        intro k _
+        rw [acceptedSum_cons, acceptedSum_all_false]
+        simp
+      · obtain ⟨h1, h2, h3, h4, h5⟩ := ih r hr
+        refine ⟨h1, by simp [h2], ?_, h4, h5⟩
+        intro k hk'
+        rw [h3 k hk', acceptedSum_cons]
+        simp
+
 end HyperModel.UnitsProofs
